@@ -185,7 +185,7 @@ Proof. exact drops_distinct. Qed.
 From AV.Model Require Import Base Bytes Vec Ops Interp.
 From AV.Spec Require Import WorldSpec.
 From AV.Proofs Require Import WorldProofs WorldFused OwnHistory.
-(** WHOLE HISTORIES WITH PANICKING USER CODE.  [WorldSpec.spec_step_f] gives a script step that carries a fuse (the (k+1)-th call of user code it makes panics) its meaning on lists; [spec_run_f] a whole history in which any step may carry one.  The fused fragment: clear and the drop of a whole vector (the destructor of element k panics: elements 0..k have been destroyed - each once -, the vector is empty - resp. gone, its storage released all the same -, elements k+1.. are leaked) and a dropped removal handle of pop / remove / swap_remove (the element's destructor panics: the vector keeps the elements in front of the handle, the tail behind it is leaked), erased and typed, with every fuse length (a fuse longer than the step changes nothing); steps without a fuse are the whole fragment of AV.Props.C01.  [C06_step_refines_fused] / [C06_history_refines_fused]: the byte-level machine ([Interp.run_step] with that fuse, through the unwinding glue of [Interp.exec]) shows exactly the specification's outcome, panic kind, events and lists, never faults, and the vectors stay represented - hence usable - afterwards, at any point of any history of any number of vectors.  [C06_history_exactly_once_fused] (on the specification, transferred by the refinement): after every such history the identities created are exactly those visible + destroyed + leaked, so nothing is destroyed twice, nothing destroyed or leaked is still visible, nothing is visible twice - the only damage is leaks.  Non-vacuity: [exf_admissible], [exf_outcomes] (a 19-step history with six armed steps).  Still one-step theorems + correspondence: panics inside drain / splice / clone / lazy clones, and replacement iterators that panic. *)
+(** WHOLE HISTORIES WITH PANICKING USER CODE.  [WorldSpec.spec_step_f] gives a script step that carries a fuse (the (k+1)-th call of user code it makes panics) its meaning on lists; [spec_run_f] a whole history in which any step may carry one.  The fused fragment: clear and the drop of a whole vector (the destructor of element k panics: elements 0..k have been destroyed - each once -, the vector is empty - resp. gone, its storage released all the same -, elements k+1.. are leaked) a dropped removal handle of pop / remove / swap_remove (the element's destructor panics: the vector keeps the elements in front of the handle, the tail behind it is leaked), and a drain over any range that is dropped unconsumed (the destructor of its k-th element panics: the type-erased drain stops there, the typed one destroys the rest of the range all the same and unwinds; the tail is not moved: the vector keeps the elements in front of the range, the rest is leaked), erased and typed, with every fuse length (a fuse longer than the step changes nothing); steps without a fuse are the whole fragment of AV.Props.C01.  [C06_step_refines_fused] / [C06_history_refines_fused]: the byte-level machine ([Interp.run_step] with that fuse, through the unwinding glue of [Interp.exec]) shows exactly the specification's outcome, panic kind, events and lists, never faults, and the vectors stay represented - hence usable - afterwards, at any point of any history of any number of vectors.  [C06_history_exactly_once_fused] (on the specification, transferred by the refinement): after every such history the identities created are exactly those visible + destroyed + leaked, so nothing is destroyed twice, nothing destroyed or leaked is still visible, nothing is visible twice - the only damage is leaks.  Non-vacuity: [exf_admissible], [exf_outcomes] (a 30-step history with nine armed steps).  Still one-step theorems + correspondence: panics inside partly consumed drains, splice, clone, lazy clones, and replacement iterators that panic. *)
 Theorem C06_clear_fused :
   forall (c : cfg) (v : vec) (u : uw) (xs : list N) (k : N),
          Rep c v xs ->
@@ -224,6 +224,29 @@ Theorem C06_handle_drop_fused :
             vbk v' = vbk v /\
             unext u' = unext u /\ ulog u' = (if c_dg c then [EDrop (nth i xs 0)] else []) ++ ulog u.
 Proof. exact temp_drop_fused. Qed.
+
+Theorem C06_drop_range_fused :
+  forall (c : cfg) (known : bool) (v : vec) (u : uw) (ys : list N) (i j : nat) (k : N),
+         store_ok c v ->
+         (i <= j)%nat ->
+         N.of_nat j <= vcap v ->
+         length ys = (j - i)%nat ->
+         Held c v i ys ->
+         Forall (tok_ok (szn c)) ys ->
+         ufuse u = Some k ->
+         exists u' : uw,
+           drop_range c known (N.of_nat i) (N.of_nat j) (v, u) =
+           (if c_dg c && (k <? N.of_nat (j - i)) then Panic PUser (v, u') else Ok tt (v, u')) /\
+           unext u' = unext u /\
+           ulog u' =
+           rev
+             (if c_dg c
+              then
+               if k <? N.of_nat (j - i)
+               then map EDrop (if known then ys else firstn (S (N.to_nat k)) ys)
+               else map EDrop ys
+              else []) ++ ulog u.
+Proof. exact drop_range_fused. Qed.
 
 (** one script step, with or without a fuse *)
 Theorem C06_step_refines_fused :
@@ -280,7 +303,12 @@ Theorem C06_example_outcomes :
           (0, 0, [], [[1; 2; 3; 4]]); (2, 8, [EDrop 2], [[1]]); (0, 0, [EDrop 1], [[]]); (
           0, 0, [], [[5]]); (0, 0, [], [[5; 6]]); (0, 0, [], [[5; 6; 7]]); (2, 8, [EDrop 5; EDrop 6], [[]]);
           (1, 0, [], [[]]); (0, 0, [], [[8]]); (0, 0, [EDrop 8], [[]]); (0, 0, [], [[]]); (
-          0, 0, [], [[]; []]); (0, 0, [], [[]; [9]]); (0, 0, [], [[]; [9; 10]]); (2, 8, [EDrop 9], [[]; []])].
+          0, 0, [], [[]; []]); (0, 0, [], [[]; [9]]); (0, 0, [], [[]; [9; 10]]); (2, 8, [EDrop 9], [[]; []]);
+          (0, 0, [], [[]; []; []]); (0, 0, [], [[]; []; [11]]); (0, 0, [], [[]; []; [11; 12]]);
+          (0, 0, [], [[]; []; [11; 12; 13]]); (0, 0, [], [[]; []; [11; 12; 13; 14]]);
+          (2, 8, [EDrop 11; EDrop 12], [[]; []; []]); (0, 0, [], [[]; []; [15]]);
+          (0, 0, [], [[]; []; [15; 16]]); (0, 0, [], [[]; []; [15; 16; 17]]);
+          (2, 8, [EDrop 15; EDrop 16], [[]; []; []]); (0, 0, [], [[]; []; []])].
 Proof. exact exf_outcomes. Qed.
 
 (* ---- end histories ---- *)
@@ -297,6 +325,7 @@ Print Assumptions C06_prefix_nodup.
 Print Assumptions C06_drops_distinct.
 Print Assumptions C06_clear_fused.
 Print Assumptions C06_handle_drop_fused.
+Print Assumptions C06_drop_range_fused.
 Print Assumptions C06_step_refines_fused.
 Print Assumptions C06_history_refines_fused.
 Print Assumptions C06_history_accounting_fused.
